@@ -235,7 +235,7 @@ func singleReturnExpr(b *ast.BlockStmt) ast.Expr {
 func init() {
 	register(&Rule{
 		Name:  "fork.chain",
-		Doc:   "every if/else-if chain over `epoch < spec.<F>_FORK_EPOCH` tests the forks in registry order without gaps and through the last fork; the branch for `< F` yields pred(F)'s item, the final else the last fork's",
+		Doc:   "every decision list over `epoch < spec.<F>_FORK_EPOCH` (if/else-if chain, tagless switch, or consecutive early returns closed by a return; operands either way round) tests the forks in registry order without gaps and through the last fork with the strict `<`; the branch for `< F` yields pred(F)'s item, the final else the last fork's",
 		Floor: 8,
 		Run:   ruleForkChain,
 	})
